@@ -1267,3 +1267,14 @@ Proof.
     rewrite <- Ev. symmetry. apply b_own_tag. exact Hv.
   - intros [b [Hb [Hne <-]]]. apply (node_iff e rank W ro fo b Hb). exact Hne.
 Qed.
+
+(* the roots of every tree: the (trimmed) values of the algorithms without inputs *)
+Lemma t_roots_iff e ro fo L r :
+  In r (t_roots (construct e ro fo) L) <->
+  exists b v, In b (build_order e) /\ a_deps (b_alg b) = [] /\ In v (b_own b) /\ trim L v = r.
+Proof.
+  unfold t_roots. rewrite in_map_iff.
+  change (d_roots (construct e ro fo)) with (reorder ro (roots (events e))). split.
+  - intros [v [E Hv]]. apply In_reorder, In_roots_e in Hv as [b [Hb [Hv Hd]]]. exists b, v. auto.
+  - intros [b [v [Hb [Hd [Hv E]]]]]. exists v. split; [exact E|]. apply In_reorder, In_roots_e. exists b. auto.
+Qed.
